@@ -4,7 +4,7 @@
     guards and the StateDB syncs of the bank wrapper. *)
 From Coq Require Import List Bool Arith ZArith String.
 Import ListNotations.
-Require Import Nib.C06.Model Nib.C06.Spec Nib.C06.Paths Nib.C06.Proofs Nib.C06.ProofsPaths Nib.C06.Property.
+Require Import Nib.C06.Model Nib.C06.Spec Nib.C06.Paths Nib.C06.Proofs Nib.C06.ProofsPaths Nib.C06.ProofsSpell Nib.C06.Property.
 Require Import Nib.Gen.C06Facts.
 
 (** sendToBank / sendToEvm (both births), convertCoinToEvmBornCoin / BornERC20, bankMsgSend: same steps, same
@@ -36,6 +36,23 @@ Proof. reflexivity. Qed.
 Theorem C06_create_guards_match_model :
   current_create_coin = model_create_coin /\ current_create_erc20 = model_create_erc20.
 Proof. split; reflexivity. Qed.
+
+(** createFunTokenFromCoin hands the message's denom string AS GIVEN to its index guard, its metadata lookup and its insert
+    (no canonicalisation / case-folding between the "already registered" guard and the insert) *)
+Theorem C06_create_denoms_match_model : current_create_coin_denoms = model_create_denoms.
+Proof. reflexivity. Qed.
+
+(** whatever the values are: the guard of the current tree looks at the value that is inserted, so the property holds for
+    every history over every spelling of every denom, whatever function the tree may rewrite the denom with *)
+Theorem C06_current_tree_guards_what_it_inserts : forall (cn : denom -> denom) (ops : list op),
+  P (views_with cn current_create_coin_denoms init ops) /\
+  views_with cn current_create_coin_denoms init ops = views init ops.
+Proof.
+  intros cn ops. split.
+  - apply (proj1 (C06_guard_checks_what_is_inserted cn current_create_coin_denoms ops eq_refl)).
+  - rewrite C06_create_denoms_match_model. apply views_with_model.
+Qed.
+Print Assumptions C06_current_tree_guards_what_it_inserts.
 
 (** NibiruBankKeeper: every wrapped bank method re-syncs ALL the accounts it moves coins between *)
 Theorem C06_bank_wrappers_sync_all_accounts : current_bank_sync = model_bank_sync.
